@@ -267,7 +267,10 @@ EXTRA_TEXT = {
            "solver/line classes normalise alike and do not differ by the signature of a slip.",
     'C02': " (ECONST, M8b, SIB1) as for C01, on the inverse path.",
     'C03': " (ECONST, M8b, SIB1) as for C01, for the line classes.",
-    'C12': " (M8b, SIB1) sibling agreement of the series and exact classes.",
+    'C12': " (M8b, SIB1, SIB2) sibling agreement of the series and exact classes (normalisers, shared assignments, order of "
+           "dependent statements).",
+    'C19': " (SIB1, SIB2) SphericalEngine::Value and SphericalEngine::Circle, which share almost all of their assignments, "
+           "do not differ by the signature of a slip and order their dependent statements alike.",
     'C04': " (OFFS) Symbolic evaluation of UTMUPS::Forward/Reverse: the false easting/northing entries added after projecting are "
            "the ones subtracted before unprojecting, indexed alike by (projection, hemisphere). (H2) Scale homogeneity: x, y and k returned by TransverseMercator/PolarStereographic::Forward have degree 1 in "
            "the scale k0 on every path, gamma degree 0; Reverse returns k of degree 1 and angles of degree 0.",
